@@ -80,7 +80,8 @@ def sequence(case, dev=None):
         if case.get("mag") is not None:
             seq.set_magnetic_field(*[float(x) for x in case["mag"]])
     else:
-        seq.declare_channel("g", "rydberg_global")
+        if not case.get("no_global"):
+            seq.declare_channel("g", "rydberg_global")
         if case.get("local") is not None:
             seq.declare_channel("l", "rydberg_local", initial_target=case["local"])
         if case.get("dmm"):
